@@ -322,8 +322,62 @@ def r5_from_scalars(rep, ctx):
     rep.check(has_first and has_rest, "C10.R5", "FromScalars:all-elements", "the values are the first scalar followed by all remaining scalars", "the values list does not contain the first scalar and every remaining one: %s" % (show(t, 120) if t else None), node=c, fn=fn)
 
 
+def _isnumpy_table(rep, m, rid="C10.R6"):
+    """IsNumpy() decides between one call on the whole operands and the element loop: it must be true exactly when
+    one of the operands is an ndarray (a list paired with a numpy *scalar* handed over whole would be repeated by `*`
+    or rejected by `+`).  Decided by the truth table of the method over its leaf tests."""
+    from .. import booleval
+
+    fn = m.method("_ValueGenerator", "IsNumpy")
+    leaves = []
+
+    def collect(x):
+        if isinstance(x, ast.BoolOp):
+            for v in x.values:
+                collect(v)
+        elif isinstance(x, ast.UnaryOp) and isinstance(x.op, ast.Not):
+            collect(x.operand)
+        elif isinstance(x, ast.IfExp):
+            collect(x.test), collect(x.body), collect(x.orelse)
+        elif isinstance(x, (ast.Compare, ast.Call, ast.Attribute, ast.Name, ast.Subscript)):
+            k = ast.unparse(x).replace(" ", "")
+            if k not in leaves:
+                leaves.append(k)
+                nodes[k] = x
+
+    nodes = {}
+    for st in own_statements(fn.node):
+        if isinstance(st, ast.If):
+            collect(st.test)
+        elif isinstance(st, ast.Return) and st.value is not None:
+            collect(st.value)
+        elif isinstance(st, ast.Assign) and not (isinstance(st.value, (ast.Attribute, ast.Tuple, ast.Name))):
+            collect(st.value)
+    res = Resolver(m, fn)
+    NDARRAY = (("attr", ("name", "numpy"), "ndarray"), ("name", "ndarray"), ("attr", ("name", "np"), "ndarray"))
+    nd, sides = [], set()
+    for k in leaves:
+        x = nodes[k]
+        if isinstance(x, ast.Call) and isinstance(x.func, ast.Name) and x.func.id == "isinstance" and len(x.args) == 2:
+            who, what = res.term(x.args[0]), res.term(x.args[1])
+            if who in (("field", "p1"), ("field", "p2")) and what in NDARRAY:
+                nd.append(k)
+                sides.add(who[1])
+    if len(leaves) > 10:
+        raise AnalysisError("_ValueGenerator.IsNumpy: too many leaf tests for a truth table")
+    try:
+        tt = booleval.truth_table(fn.node, leaves, lambda x: (ast.unparse(x).replace(" ", "") if ast.unparse(x).replace(" ", "") in leaves and not isinstance(x, (ast.BoolOp, ast.UnaryOp)) else None))
+    except booleval.Unknown as e:
+        raise AnalysisError("_ValueGenerator.IsNumpy is not a boolean combination of tests: %s" % e)
+    idx = [leaves.index(k) for k in nd]
+    wrong = [vals for vals, got in tt.items() if got != any(vals[i_] for i_ in idx)]
+    rep.check(sides == {"p1", "p2"} and not wrong, rid, "_ValueGenerator.IsNumpy:ndarray-operands-only", "IsNumpy() is true exactly when the left or the right operand is an ndarray",
+              "IsNumpy() is not `p1 is an ndarray or p2 is an ndarray` (leaf tests %s): operands that are not arrays are handed to the database operation whole, or arrays are iterated element by element" % leaves, fn=fn)
+
+
 def r6_passthrough(rep, ctx):
     m = ctx.model
+    _isnumpy_table(rep, m)
     init = m.method("_ValueGenerator", "__init__")
     res = Resolver(m, init)
     n = 0
